@@ -718,6 +718,11 @@ Section EntryLift.
                    (Some (TList (done ++ [(mk, e1)])), Ok 1%nat)).
     { unfold insert_new_f. cbn [s_init rt_opts].
       rewrite (key_tuple_codec env fo ko esfs keys mk kk Henv Hdk Hmk Hkk). rewrite Hnan.
+      assert (Hnf : tl_find mk done = None).
+      { clear -Ho. induction done as [|[k0 e0] d IHd]; [reflexivity|]. cbn [tl_find].
+        destruct (Ho k0 e0 (or_introl eq_refl)) as (_ & _ & _ & -> & _).
+        apply IHd. intros mk' e' Hin. apply (Ho mk' e'). now right. }
+      rewrite Hnf.
       rewrite Hstep by (unfold need_struct; lia). unfold upd_entry.
       rewrite tl_insert_append; auto. intros k0 e0 Hin. destruct (Ho k0 e0 Hin) as (_ & _ & _ & H1 & H2). auto. }
     pose proof kk_find as HF.
